@@ -246,14 +246,30 @@ def all_finite(obs):
     return all(np.isfinite(unbits(x)) for row in obs['vals'] for x in row)
 
 
+def abs_close(a, b, eps):
+    """|x - y| <= eps * max(1, |x|, |y|) for every cell: rounding differences of libm calls chained through several
+    equations of one pass (a 1-ulp difference in `Z = … ** (-0.5)` is amplified by `Z ** 3` in the next equation)."""
+    for ra, rb in zip(a['vals'], b['vals']):
+        for x, y in zip(ra, rb):
+            if canon_bits(x) == canon_bits(y):
+                continue
+            fx, fy = unbits(x), unbits(y)
+            if not (np.isfinite(fx) and np.isfinite(fy)):
+                return False
+            if abs(fx - fy) > eps * max(1.0, abs(fx), abs(fy)):
+                return False
+    return True
+
+
 def values_agree(a, b, libm, iterated):
-    """bit-exact where only + - * / on doubles are involved; 4 ulp for one pass with libm; relative 1e-9 when libm
-    results have been fed back through many passes."""
+    """bit-exact where only + - * / on doubles are involved; with libm (exp, log, pow, real**integer): 4 ulp, or — when
+    several such results feed each other within one pass — 1e-12 relative to max(1, |value|); 1e-9 when libm results
+    have been fed back through many passes."""
     if not libm:
         return max_ulp(a, b) == 0
     if not iterated:
-        return max_ulp(a, b) <= TOL_ULP
-    return rel_close(a, b, 1e-9)
+        return max_ulp(a, b) <= TOL_ULP or abs_close(a, b, 1e-12)
+    return rel_close(a, b, 1e-9) or abs_close(a, b, 1e-9)
 
 
 def agree(a, b, libm, iterated):
@@ -368,20 +384,28 @@ def classify(prog, call, n, lags, leads, F, P, twin_fn):
     recorded in known_findings.json are returned only when the observation is *explained* by that defect."""
     libm = prog['libm'] or 'powi' in prog['unsafe']
     iterated = call['call'] != 'evaluate'
-    if not all_finite(P):
-        return ('skip', 'non-finite')   # outside the property: values do not stay finite in the Python class
+    if not all_finite(P) or P['tag'] == 'SolutionError' or 'E' in P['status']:
+        # outside the property: values do not stay finite in the Python class (an overflow raises inside NumPy
+        # before the store, so the stored values may all be finite while the solve has failed numerically)
+        return ('skip', 'non-finite')
     if agree(F, P, libm, iterated):
         return None
     defects = [k for k in prog['unsafe'] if k != 'powi']
     what = (f"{call}: Fortran {F['tag']} status {F['status']} iterations {F['iters']} vs Python {P['tag']} "
             f"status {P['status']} iterations {P['iters']}; max value distance {max_ulp(F, P)} ulp")
     periods = call_periods(call, n, lags, leads)
-    # explicit infeasible period: Python wraps around silently, the compiled module refuses
+    if (call['call'] == 'solve' and call['opts']['offset'] != 0 and call['opts']['errors'] != 'raise'
+            and F['tag'] == 'IndexError' and P['tag'] == 'IndexError' and periods is not None
+            and any(not 0 <= p + call['opts']['offset'] < n for p in periods)):
+        # the template's solve() only `return`s on an error when error_control is 'raise'; with any other setting it
+        # goes on solving the later periods after an offset error, and the wrapper stores those values before raising
+        return ('solve-continues-after-offset-error', what)
+    # explicit infeasible period: the compiled module refuses with its own error code
     if periods is not None and any(not feasible(p, n, lags, leads) for p in periods):
         want = 'IndexError' if call['call'] == 'evaluate' else 'FortranEngineError'
         if F['tag'] == want:
             return ('infeasible-period-mismatch', what)
-        return ('infeasible-period-other', what)
+        # otherwise the call ended earlier for another reason: judged by the rules below
     if iterated and call['opts']['max_iter'] <= 0 and call['opts']['min_iter'] <= call['opts']['max_iter']:
         if F['tag'] == 'FortranEngineError' and F['status'] == '-' * n:
             return ('max-iter-zero-engine-error', what)
@@ -493,6 +517,13 @@ def obs_str(o):
             ';'.join(','.join(str(canon_bits(b)) for b in row) for row in o['vals']))
 
 
+def str_nonfinite(s):
+    parts = s.split('|')
+    if len(parts) != 4:
+        return False
+    return any(not np.isfinite(unbits(int(b))) for row in parts[3].split(';') for b in row.split(',') if b)
+
+
 def canon_model_str(s):
     parts = s.split('|')
     if len(parts) != 4:
@@ -556,6 +587,9 @@ def designed_programs():
         calls=[{'call': 'solve_t', 't': 2, 'opts': mkopts(0, 50, 1e-8, -1, 'ignore', 'raise')},
                {'call': 'solve_t', 't': -4, 'opts': mkopts(0, 50, 1e-8, 1, 'ignore', 'raise')}],
         data='nan-at-2', n=6)
+    add('offset-error-in-solve', [{'lhs': 'A', 'rhs': B('add', B('mul', D('0.5'), V('A')), V('X'))}],
+        calls=[{'call': 'solve', 'opts': mkopts(0, 50, 1e-8, off, 'ignore', e)}
+               for off in (-1, 1) for e in ('raise', 'skip', 'ignore', 'replace')], data='uniform', n=6)
     # lags and leads in one model; every explicit period including the infeasible ones
     ll_calls = [{'call': 'evaluate', 't': t} for t in range(-9, 9)]
     ll_calls += [{'call': 'solve_t', 't': t, 'opts': mkopts(0, 30, 1e-9, 0, 'ignore', 'raise')} for t in range(-8, 8)]
@@ -760,7 +794,7 @@ def gen_programs(ctx, n_random):
 
 def run(ctx, rep):
     quick = ctx.tier == 'quick'
-    n_random = (26 if quick else 560) * ctx.scale
+    n_random = (70 if quick else 1500) * ctx.scale
     budget = {'evaluate': 5, 'solve_t': 12, 'solve': 5} if quick else {'evaluate': 6, 'solve_t': 16, 'solve': 8}
     progs = gen_programs(ctx, n_random)
     jobs = [(i, p, f'{ctx.prop}:{ctx.seed}:prog:{i}', budget, ctx.oracle_only) for i, p in enumerate(progs)]
@@ -820,7 +854,13 @@ def correspondence(ctx, rep, text_reqs, model_reqs):
         if f_model != f_impl:
             rep.disagree('Fortran engine: model != compiled module', case, f_model, f_impl)
         if p_impl is not None and p_model != p_impl:
-            rep.disagree('Python engine: model != Python class', case, p_model, p_impl)
+            if str_nonfinite(p_model):
+                # NumPy turns an overflow into a warning, which solve_t(errors='raise') converts into an exception
+                # *before* the store; the Python-side model has no warnings and stores the infinity.  Non-finite
+                # values are outside the property; only the Fortran-side tie covers them.
+                rep.dist['model-tie:python-side-nonfinite-skipped'] += 1
+            else:
+                rep.disagree('Python engine: model != Python class', case, p_model, p_impl)
         unsafe = [k for k in feats if k != 'powi']
         if (safe == 'safe') != (not unsafe):
             rep.disagree('KindSafe: model != harness typing', case, safe, unsafe)
